@@ -77,6 +77,17 @@ extern size_t g_aws_nfix;
 #pragma CPROVER check disable "conversion"
 #endif
 
+/*
+ * pointer identity in a form the symbolic execution can decide: `p == q` between the address of an array and the
+ * address of a string literal is NOT folded to a constant by CBMC's simplifier (measured), same_object/offset are.
+ * An undecided comparison here makes the token structure symbolic (see the NOTE below).
+ */
+#ifdef VERIF_NATIVE
+#define AWS_SAME_PTR(p, q) ((const void *)(p) == (const void *)(q))
+#else
+#define AWS_SAME_PTR(p, q) (__CPROVER_same_object((p), (q)) && __CPROVER_POINTER_OFFSET(p) == __CPROVER_POINTER_OFFSET(q))
+#endif
+
 static inline void
 aws_stream_init(struct aws_stream * S)
 {
@@ -160,13 +171,13 @@ aws_stream_cstr(struct aws_stream * S, const char * s)
 	size_t k;
 
 	for (k = 0; k < AWS_NIN; k++) {
-		if (!g_aws_in[k].blob && g_aws_in[k].ptr != NULL && g_aws_in[k].ptr == (const void *)s) {
+		if (!g_aws_in[k].blob && g_aws_in[k].ptr != NULL && AWS_SAME_PTR(g_aws_in[k].ptr, s)) {
 			aws_stream_ref(S, (int)k);
 			return;
 		}
 	}
 	for (k = 0; k < AWS_NFIX; k++) {
-		if (k < g_aws_nfix && g_aws_fix[k].ptr == (const void *)s) {
+		if (k < g_aws_nfix && AWS_SAME_PTR(g_aws_fix[k].ptr, s)) {
 			aws_stream_mem(S, s, g_aws_fix[k].len);
 			return;
 		}
